@@ -1,45 +1,865 @@
+// Runner for C34: certificate classification / chain validation / chain
+// verification (pkg/scrypto/cppki) with explicit verification times, and
+// FetchingProvider.GetChains over the real sqlite trust DB with a scripted
+// fetcher. Real keys, certificates and TRCs are made in-process (pkigen); the
+// abstract descriptions handed to the model are read back from the parsed
+// objects.
 package main
 
 import (
+	"context"
 	"crypto/x509"
+	"encoding/asn1"
+	"errors"
 	"fmt"
+	"net"
+	"sort"
+	"strings"
 	"time"
 
+	"github.com/scionproto/scion/pkg/addr"
+	"github.com/scionproto/scion/pkg/scrypto"
 	"github.com/scionproto/scion/pkg/scrypto/cppki"
+	"github.com/scionproto/scion/private/storage/db"
+	"github.com/scionproto/scion/private/storage/trust/sqlite"
+	"github.com/scionproto/scion/private/trust"
 	"verifharness/internal/pkigen"
+	"verifharness/internal/vgen"
 )
 
-func main() {
-	g := pkigen.NewGen()
-	t0 := time.Unix(1900000000, 0).UTC()
-	d := 24 * time.Hour
-	kr, kc, ka, kc2 := g.NewKey(), g.NewKey(), g.NewKey(), g.NewKey()
-	ks, kg := g.NewKey(), g.NewKey()
-	root := g.MustIssue(g.Tmpl(pkigen.Root, "1-ff00:0:110", "root", t0.Add(-3*d), t0.Add(3*d)), kr, nil, nil)
-	sens := g.MustIssue(g.Tmpl(pkigen.Sensitive, "1-ff00:0:110", "sens", t0.Add(-3*d), t0.Add(3*d)), ks, nil, nil)
-	reg := g.MustIssue(g.Tmpl(pkigen.Regular, "1-ff00:0:110", "reg", t0.Add(-3*d), t0.Add(3*d)), kg, nil, nil)
-	ca := g.MustIssue(g.Tmpl(pkigen.CA, "1-ff00:0:110", "ca", t0.Add(-2*d), t0.Add(2*d)), kc, root, nil)
-	as := g.MustIssue(g.Tmpl(pkigen.AS, "1-ff00:0:111", "as", t0.Add(-1*d), t0.Add(1*d)), ka, ca, nil)
-	// AS certificate issued directly by the root; unrelated CA (self-made root2)
-	kr2 := g.NewKey()
-	root2 := g.MustIssue(g.Tmpl(pkigen.Root, "1-ff00:0:112", "root2", t0.Add(-3*d), t0.Add(3*d)), kr2, nil, nil)
-	ca2 := g.MustIssue(g.Tmpl(pkigen.CA, "1-ff00:0:112", "ca2", t0.Add(-2*d), t0.Add(2*d)), kc2, root2, nil)
-	asd := g.MustIssue(g.Tmpl(pkigen.AS, "1-ff00:0:111", "asd", t0.Add(-1*d), t0.Add(1*d)), ka, root, nil)
-	trc, err := pkigen.MakeTRC(pkigen.TRCSpec{ISD: 1, Base: 1, Serial: 1, NB: t0.Add(-2 * d), NA: t0.Add(2 * d),
-		Certs: []*pkigen.Cert{sens, reg, root}, Signers: []*pkigen.Cert{sens, reg}})
-	fmt.Println("trc err", err)
-	fmt.Println("verify base", trc.Verify(nil))
-	v := func(name string, ch []*x509.Certificate) {
-		err := cppki.VerifyChain(ch, cppki.VerifyOptions{TRC: []*cppki.TRC{&trc.TRC}, CurrentTime: t0})
-		fmt.Println(name, err == nil, err)
+const (
+	iaCore = "1-ff00:0:110"
+	iaAS   = "1-ff00:0:111"
+	iaAS2  = "1-ff00:0:112"
+	iaISD2 = "2-ff00:0:211"
+)
+
+// ------------------------------------------------------------------ scenario
+
+// knobs describe one chain scenario; the zero value is the correct chain.
+type knobs struct {
+	unit                                       time.Duration
+	asNB, asNA, caNB, caNA, rootNB, rootNA     int // offsets in units from the origin
+	asMut, caMut, rootMut                      int
+	asIssuer                                   int // 0 CA, 1 other CA (other name), 2 other CA (same name), 3 root, 4 foreign root
+	caIssuer                                   int // 0 root, 1 foreign root, 2 second root of the TRC, 3 self
+	corruptAS, corruptCA                       bool
+	edCA                                       bool
+	asIA                                       string
+}
+
+func defaultKnobs(unit time.Duration) knobs {
+	return knobs{unit: unit, asNB: -2, asNA: 2, caNB: -3, caNA: 3, rootNB: -5, rootNA: 5, asIA: iaAS}
+}
+
+type scen struct {
+	g                         *pkigen.Gen
+	sens, reg                 *pkigen.Cert
+	root, root2, foreign      *pkigen.Cert
+	ca, ca2, as               *pkigen.Cert
+}
+
+const nASMut, nCAMut, nRootMut = 14, 9, 6
+
+func mutAS(t *x509.Certificate, m int) (noSKID bool) {
+	switch m {
+	case 1:
+		t.KeyUsage |= x509.KeyUsageCertSign
+	case 2:
+		t.KeyUsage = x509.KeyUsageKeyEncipherment
+	case 3:
+		t.ExtKeyUsage = []x509.ExtKeyUsage{x509.ExtKeyUsageServerAuth, x509.ExtKeyUsageClientAuth}
+	case 4:
+		t.ExtKeyUsage = []x509.ExtKeyUsage{x509.ExtKeyUsageTimeStamping}
+	case 5:
+		t.ExtKeyUsage = append(t.ExtKeyUsage, x509.ExtKeyUsageAny)
+	case 6:
+		t.BasicConstraintsValid, t.IsCA = true, true
+	case 7:
+		t.Subject = pkigen.Name("as", "")
+	case 8:
+		t.Subject = pkigen.Name("as", "1-0")
+	case 9:
+		t.Subject = pkigen.Name("as", "1-ff00:0:0111")
+	case 10:
+		return true
+	case 11:
+		t.UnknownExtKeyUsage = []asn1.ObjectIdentifier{cppki.OIDExtKeyUsageRoot}
+	case 12:
+		t.BasicConstraintsValid, t.IsCA = true, false
+	case 13:
+		t.UnknownExtKeyUsage = []asn1.ObjectIdentifier{{1, 2, 3, 4}}
 	}
-	v("good", []*x509.Certificate{as.X, ca.X})
-	v("direct-root+unrelated-ca", []*x509.Certificate{asd.X, ca2.X})
-	v("direct-root+ca", []*x509.Certificate{asd.X, ca.X})
-	v("as+foreign ca", []*x509.Certificate{as.X, ca2.X})
-	a := pkigen.NewAbs(g, t0)
-	fmt.Println(a.Cert(as.X))
-	fmt.Println(a.TRC(&trc.TRC, 0, 0))
-	ct, err := cppki.ValidateCert(pkigen.Corrupt(as).X)
-	fmt.Println(ct, err, a.Cert(pkigen.Corrupt(as).X))
+	return false
+}
+
+func mutCA(t *x509.Certificate, m int) {
+	switch m {
+	case 1:
+		t.KeyUsage |= x509.KeyUsageDigitalSignature
+	case 2:
+		t.MaxPathLen, t.MaxPathLenZero = 1, false
+	case 3:
+		t.MaxPathLen, t.MaxPathLenZero = -1, false
+	case 4:
+		t.ExtKeyUsage = []x509.ExtKeyUsage{x509.ExtKeyUsageClientAuth, x509.ExtKeyUsageTimeStamping}
+	case 5:
+		t.ExtKeyUsage = []x509.ExtKeyUsage{x509.ExtKeyUsageOCSPSigning}
+	case 6:
+		t.ExtKeyUsage = []x509.ExtKeyUsage{x509.ExtKeyUsageTimeStamping}
+	case 7:
+		t.Subject = pkigen.Name("ca", "")
+	case 8:
+		t.ExtKeyUsage = []x509.ExtKeyUsage{x509.ExtKeyUsageServerAuth, x509.ExtKeyUsageTimeStamping}
+	}
+}
+
+func mutRoot(t *x509.Certificate, m int) {
+	switch m {
+	case 1:
+		t.ExtKeyUsage = nil
+	case 2:
+		t.MaxPathLen, t.MaxPathLenZero = 0, true
+	case 3:
+		t.MaxPathLen = 2
+	case 4:
+		t.KeyUsage |= x509.KeyUsageDigitalSignature
+	case 5:
+		t.ExtKeyUsage = []x509.ExtKeyUsage{x509.ExtKeyUsageServerAuth}
+	}
+}
+
+func (k knobs) at(origin time.Time, off int) time.Time {
+	return origin.Add(time.Duration(off) * k.unit)
+}
+
+// build creates the certificates of a scenario. It returns nil if the x509
+// library refuses to create one of them (the case is then skipped).
+func build(g *pkigen.Gen, k knobs, origin time.Time) *scen {
+	s := &scen{g: g}
+	wideNB, wideNA := origin.Add(-400*24*time.Hour), origin.Add(400*24*time.Hour)
+	s.sens = g.MustIssue(g.Tmpl(pkigen.Sensitive, iaCore, "sens", wideNB, wideNA), g.NewKey(), nil, nil)
+	s.reg = g.MustIssue(g.Tmpl(pkigen.Regular, iaCore, "reg", wideNB, wideNA), g.NewKey(), nil, nil)
+	rt := g.Tmpl(pkigen.Root, iaCore, "root", k.at(origin, k.rootNB), k.at(origin, k.rootNA))
+	mutRoot(rt, k.rootMut)
+	var err error
+	if s.root, err = g.Issue(rt, g.NewKey(), nil, nil, false); err != nil {
+		return nil
+	}
+	s.root2 = g.MustIssue(g.Tmpl(pkigen.Root, iaCore, "root2", wideNB, wideNA), g.NewKey(), nil, nil)
+	s.foreign = g.MustIssue(g.Tmpl(pkigen.Root, iaCore, "foreign", wideNB, wideNA), g.NewKey(), nil, nil)
+
+	caKey := g.NewKey()
+	if k.edCA {
+		caKey = g.NewEdKey()
+	}
+	ct := g.Tmpl(pkigen.CA, iaCore, "ca", k.at(origin, k.caNB), k.at(origin, k.caNA))
+	mutCA(ct, k.caMut)
+	var caParent *pkigen.Cert
+	switch k.caIssuer {
+	case 0:
+		caParent = s.root
+	case 1:
+		caParent = s.foreign
+	case 2:
+		caParent = s.root2
+	}
+	if s.ca, err = g.Issue(ct, caKey, caParent, nil, false); err != nil {
+		return nil
+	}
+	name2 := "ca2"
+	if k.asIssuer == 2 {
+		name2 = "ca"
+	}
+	c2 := g.Tmpl(pkigen.CA, iaCore, name2, k.at(origin, k.caNB), k.at(origin, k.caNA))
+	mutCA(c2, k.caMut)
+	if s.ca2, err = g.Issue(c2, g.NewKey(), s.root, nil, false); err != nil {
+		return nil
+	}
+	at := g.Tmpl(pkigen.AS, k.asIA, "as", k.at(origin, k.asNB), k.at(origin, k.asNA))
+	noSKID := mutAS(at, k.asMut)
+	var asParent *pkigen.Cert
+	switch k.asIssuer {
+	case 0:
+		asParent = s.ca
+	case 1, 2:
+		asParent = s.ca2
+	case 3:
+		asParent = s.root
+	case 4:
+		asParent = s.foreign
+	}
+	if s.as, err = g.Issue(at, g.NewKey(), asParent, nil, noSKID); err != nil {
+		return nil
+	}
+	if k.corruptAS {
+		s.as = pkigen.Corrupt(s.as)
+	}
+	if k.corruptCA && !k.edCA {
+		s.ca = pkigen.Corrupt(s.ca)
+	}
+	return s
+}
+
+// mutate applies n random irregularities to k.
+func mutate(r *vgen.Rand, k *knobs, n int) []string {
+	var what []string
+	for i := 0; i < n; i++ {
+		switch r.Intn(12) {
+		case 0:
+			k.asMut = r.Range(1, nASMut-1)
+			what = append(what, fmt.Sprintf("asMut%d", k.asMut))
+		case 1:
+			k.caMut = r.Range(1, nCAMut-1)
+			what = append(what, fmt.Sprintf("caMut%d", k.caMut))
+		case 2:
+			k.rootMut = r.Range(1, nRootMut-1)
+			what = append(what, fmt.Sprintf("rootMut%d", k.rootMut))
+		case 3:
+			k.asIssuer = r.Range(1, 4)
+			what = append(what, fmt.Sprintf("asIssuer%d", k.asIssuer))
+		case 4:
+			k.caIssuer = r.Range(1, 3)
+			what = append(what, fmt.Sprintf("caIssuer%d", k.caIssuer))
+		case 5:
+			k.corruptAS = true
+			what = append(what, "corruptAS")
+		case 6:
+			k.corruptCA = true
+			what = append(what, "corruptCA")
+		case 7:
+			k.edCA = true
+			what = append(what, "edCA")
+		case 8: // AS window sticks out of the CA window
+			if r.Bool() {
+				k.asNB = k.caNB - 1
+			} else {
+				k.asNA = k.caNA + 1
+			}
+			what = append(what, "asNotCovered")
+		case 9: // CA window sticks out of the root window (allowed by scion)
+			if r.Bool() {
+				k.caNB = k.rootNB - 1
+			} else {
+				k.caNA = k.rootNA + 1
+			}
+			what = append(what, "caBeyondRoot")
+		case 10: // equal windows
+			k.asNB, k.asNA = k.caNB, k.caNA
+			what = append(what, "asEqualsCA")
+		case 11:
+			k.rootNB, k.rootNA = -1, 1
+			what = append(what, "shortRoot")
+		}
+	}
+	return what
+}
+
+// ------------------------------------------------------------------ printing
+
+func optTRC(a *pkigen.Abs, t *cppki.TRC) string {
+	if t == nil || t.IsZero() {
+		return "None"
+	}
+	return "(Some " + a.TRC(t, 0, 0) + ")"
+}
+
+func chainTerm(a *pkigen.Abs, ch []*x509.Certificate) string { return a.Certs(ch) }
+
+func idList(a *pkigen.Abs, ch []*x509.Certificate) []uint64 {
+	out := make([]uint64, len(ch))
+	for i, c := range ch {
+		out[i] = a.CertID(c)
+	}
+	return out
+}
+
+func sortedChains(a *pkigen.Abs, chs [][]*x509.Certificate) string {
+	var l []string
+	for _, ch := range chs {
+		l = append(l, vgen.NList(idList(a, ch)))
+	}
+	sort.Strings(l)
+	return vgen.List(l)
+}
+
+func classCode(c *x509.Certificate) uint64 {
+	ct, err := cppki.ValidateCert(c)
+	if err != nil {
+		return 0
+	}
+	switch ct {
+	case cppki.Sensitive:
+		return 1
+	case cppki.Regular:
+		return 2
+	case cppki.Root:
+		return 3
+	case cppki.CA:
+		return 4
+	case cppki.AS:
+		return 5
+	}
+	return 0
+}
+
+// ------------------------------------------------------------------ provider fakes
+
+type recurser struct{ ok bool }
+
+func (r recurser) AllowRecursion(net.Addr) error {
+	if r.ok {
+		return nil
+	}
+	return errors.New("recursion not allowed")
+}
+
+type router struct{}
+
+func (router) ChooseServer(context.Context, addr.ISD) (net.Addr, error) {
+	return &net.UDPAddr{IP: net.IPv4(127, 0, 0, 1), Port: 30252}, nil
+}
+
+type fetcher struct {
+	chains [][]*x509.Certificate
+	fail   bool
+	calls  int
+}
+
+func (f *fetcher) Chains(context.Context, trust.ChainQuery, net.Addr) ([][]*x509.Certificate, error) {
+	f.calls++
+	if f.fail {
+		return nil, errors.New("fetch failed")
+	}
+	return f.chains, nil
+}
+
+func (f *fetcher) TRC(context.Context, cppki.TRCID, net.Addr) (cppki.SignedTRC, error) {
+	return cppki.SignedTRC{}, errors.New("not scripted")
+}
+
+var dbSeq int
+
+func newDB() sqlite.DB {
+	dbSeq++
+	d, err := sqlite.New(fmt.Sprintf("verif_c34_%d_%d", time.Now().UnixNano(), dbSeq),
+		&db.SqliteConfig{InMemory: true})
+	if err != nil {
+		panic(err)
+	}
+	return d
+}
+
+// ------------------------------------------------------------------ main
+
+func main() {
+	run := vgen.Flags("C34")
+	run.Imports = []string{"Model.PKIChain"}
+	run.CheckFn = "PKIChain.check"
+	run.DiagFn = "PKIChain.diag"
+	run.CaseType = "PKIChain.case"
+	run.ShardSize = 150
+	run.Rule = "cert/chain/verify: a correct root/CA/AS scenario (fresh real keys and certificates per case) with 0-3 " +
+		"irregularities (template mutations of AS/CA/root, other issuer, foreign root, AS issued by a root, corrupted " +
+		"signatures, ed25519 CA, windows not covering, TRC shapes nil/zero/no root/CA inside/two TRCs, chain shapes), verified " +
+		"at explicit times on and around every validity boundary; time: Contains/InGracePeriod on boundaries; provider: " +
+		"FetchingProvider.GetChains over the sqlite trust DB (1-3 TRCs with root rotation and grace periods, several " +
+		"chains, scripted fetcher/recurser, AllowInactive); non-trivial = verify cases that pass ValidateChain, provider " +
+		"cases that reach activeTRCs"
+	rng := vgen.NewRand(run.Seed)
+	t0 := time.Unix(1900000000, 0).UTC()
+
+	// 1. verify / validate cases with explicit time
+	var sweep []func(*knobs) string
+	for m := 1; m < nASMut; m++ {
+		sweep = append(sweep, func(k *knobs) string { k.asMut = m; return fmt.Sprintf("asMut%d", m) })
+	}
+	for m := 1; m < nCAMut; m++ {
+		sweep = append(sweep, func(k *knobs) string { k.caMut = m; return fmt.Sprintf("caMut%d", m) })
+	}
+	for m := 1; m < nRootMut; m++ {
+		sweep = append(sweep, func(k *knobs) string { k.rootMut = m; return fmt.Sprintf("rootMut%d", m) })
+	}
+	for m := 1; m <= 4; m++ {
+		sweep = append(sweep, func(k *knobs) string { k.asIssuer = m; return fmt.Sprintf("asIssuer%d", m) })
+	}
+	for m := 1; m <= 3; m++ {
+		sweep = append(sweep, func(k *knobs) string { k.caIssuer = m; return fmt.Sprintf("caIssuer%d", m) })
+	}
+	sweep = append(sweep,
+		func(k *knobs) string { k.corruptAS = true; return "corruptAS" },
+		func(k *knobs) string { k.corruptCA = true; return "corruptCA" },
+		func(k *knobs) string { k.edCA = true; return "edCA" },
+		func(k *knobs) string { k.asNB = k.caNB - 1; return "asNotCovered" },
+		func(k *knobs) string { k.asNA = k.caNA + 1; return "asNotCovered" },
+		func(k *knobs) string { k.caNA = k.rootNA + 1; return "caBeyondRoot" },
+		func(k *knobs) string { k.asNB, k.asNA = k.caNB, k.caNA; return "asEqualsCA" },
+		func(k *knobs) string { k.asIssuer, k.caIssuer = 3, 1; return "asIssuer3+caIssuer1" },
+		func(k *knobs) string { k.asIssuer, k.caMut = 3, 5; return "asIssuer3+caMut5" },
+	)
+	nv := run.Count(260, 6000)
+	for i := 0; i < nv; i++ {
+		r := rng.Fork(uint64(i))
+		k := defaultKnobs(1000 * time.Second)
+		nm := 0
+		switch {
+		case i%4 == 0:
+			nm = 0
+		case i%4 == 3:
+			nm = r.Range(2, 3)
+		default:
+			nm = 1
+		}
+		what := mutate(r, &k, nm)
+		trcShape := 0
+		if r.Chance(1, 5) {
+			trcShape = r.Range(1, 7)
+		}
+		chainShape := 0
+		if r.Chance(1, 10) {
+			chainShape = r.Range(1, 6)
+		}
+		timeSel := r.Intn(80)
+		timeDelta := r.Intn(3) - 1
+		if i < len(sweep) {
+			// single-fault sweep: every irregularity once, everything else correct, centre time
+			k = defaultKnobs(1000 * time.Second)
+			what = []string{sweep[i](&k)}
+			trcShape, chainShape, timeSel = i%2, 0, 99
+		}
+		want := run.Want()
+		g := pkigen.NewGen()
+		s := build(g, k, t0)
+		if s == nil {
+			run.Tally("verify:unbuildable")
+			// keep ids stable: three ids are consumed per scenario
+			run.Skip()
+			run.Skip()
+			run.Skip()
+			continue
+		}
+		a := pkigen.NewAbs(g, t0)
+		// the TRC(s)
+		mk := func(certs ...*pkigen.Cert) *cppki.TRC {
+			t := &cppki.TRC{Version: 1, ID: cppki.TRCID{ISD: 1, Base: 1, Serial: 1},
+				Validity: cppki.Validity{NotBefore: t0.Add(-5000 * time.Second), NotAfter: t0.Add(5000 * time.Second)},
+				Quorum:   1}
+			for _, c := range certs {
+				t.Certificates = append(t.Certificates, c.X)
+			}
+			return t
+		}
+		var trcs []*cppki.TRC
+		switch trcShape {
+		case 0:
+			trcs = []*cppki.TRC{mk(s.sens, s.reg, s.root)}
+		case 1:
+			trcs = []*cppki.TRC{mk(s.sens, s.root2, s.reg, s.root)}
+		case 2:
+			// (a nil *TRC is not generated: verifyChain tolerates it but VerifyChain's error
+			// wrapping dereferences it and panics - outside C34, see notes/C34.md)
+			trcs = []*cppki.TRC{{}, mk(s.sens, s.reg, s.root)}
+		case 3:
+			trcs = []*cppki.TRC{{}}
+		case 4:
+			trcs = []*cppki.TRC{mk(s.sens, s.reg)}
+		case 5:
+			trcs = []*cppki.TRC{mk(s.sens, s.reg, s.root, s.ca2)}
+		case 6:
+			trcs = []*cppki.TRC{mk(s.sens, s.reg, s.foreign), mk(s.sens, s.reg, s.root)}
+		case 7:
+			trcs = []*cppki.TRC{mk(s.sens, s.reg, s.foreign)}
+		}
+		var ch []*x509.Certificate
+		switch chainShape {
+		case 0:
+			ch = []*x509.Certificate{s.as.X, s.ca.X}
+		case 1:
+			ch = nil
+		case 2:
+			ch = []*x509.Certificate{s.as.X}
+		case 3:
+			ch = []*x509.Certificate{s.ca.X, s.as.X}
+		case 4:
+			ch = []*x509.Certificate{s.as.X, s.ca.X, s.root.X}
+		case 5:
+			ch = []*x509.Certificate{s.as.X, s.as.X}
+		case 6:
+			ch = []*x509.Certificate{s.ca.X, s.ca.X}
+		}
+		// verification time: a boundary of one of the certificates (+-1 s) or the centre
+		bounds := []time.Time{t0, s.as.X.NotBefore, s.as.X.NotAfter, s.ca.X.NotBefore, s.ca.X.NotAfter,
+			s.root.X.NotBefore, s.root.X.NotAfter, t0}
+		now := t0
+		if timeSel < 40 {
+			now = bounds[timeSel%len(bounds)].Add(time.Duration(timeDelta) * time.Second)
+		}
+		desc := map[string]any{"mut": what, "trcShape": trcShape, "chainShape": chainShape,
+			"now": now.Unix() - t0.Unix()}
+		for _, w := range what {
+			run.Tally("mut:" + strings.TrimRight(w, "0123456789"))
+		}
+		if !want {
+			run.Skip()
+			run.Skip()
+			run.Skip()
+			continue
+		}
+		// (a) ValidateCert on one certificate of the scenario
+		var one *x509.Certificate
+		switch r.Intn(5) {
+		case 0:
+			one = s.root.X
+		case 1:
+			one = s.ca.X
+		case 2:
+			one = s.sens.X
+		default:
+			one = s.as.X
+		}
+		cc := classCode(one)
+		run.Tally(fmt.Sprintf("class:%d", cc))
+		run.Add("cert", vgen.App("PKIChain.CCert", a.Cert(one), vgen.N(cc)),
+			a.Cert(one), true, desc)
+		// (b) ValidateChain
+		vc := cppki.ValidateChain(ch) == nil
+		run.Tally(fmt.Sprintf("validate:%v", vc))
+		run.Add("chain", vgen.App("PKIChain.CChain", chainTerm(a, ch), vgen.B(vc)),
+			chainTerm(a, ch), true, desc)
+		// (c) VerifyChain at the explicit time
+		var verr error
+		if p, msg := vgen.Recover(func() {
+			verr = cppki.VerifyChain(ch, cppki.VerifyOptions{TRC: trcs, CurrentTime: now})
+		}); p {
+			run.Violate(run.Add("verify", "(PKIChain.CVerify [] [] 0%Z false)", "panic", true, desc), "panic: "+msg, desc)
+			continue
+		}
+		ok := verr == nil
+		run.Tally(fmt.Sprintf("verify:%v", ok))
+		var tt []string
+		for _, t := range trcs {
+			tt = append(tt, optTRC(a, t))
+		}
+		term := vgen.App("PKIChain.CVerify", chainTerm(a, ch), vgen.List(tt),
+			fmt.Sprintf("(%d)%%Z", a.T(now)), vgen.B(ok))
+		var tags []string
+		if k.asIssuer == 3 {
+			tags = append(tags, "as-issued-by-root")
+		}
+		run.Add("verify", term, term, vc, desc, tags...)
+	}
+
+	// 2. Contains / InGracePeriod on boundaries
+	nt := run.Count(60, 1500)
+	for i := 0; i < nt; i++ {
+		r := rng.Fork(uint64(500000 + i))
+		base := uint64(r.Range(1, 2))
+		serial := base + uint64(r.Intn(3))
+		nb := t0.Add(time.Duration(r.Range(-5, 5)) * 100 * time.Second)
+		na := nb.Add(time.Duration(r.Range(1, 20)) * 100 * time.Second)
+		grace := time.Duration(r.Range(0, 25)) * 100 * time.Second
+		t := &cppki.TRC{Version: 1, ID: cppki.TRCID{ISD: 1, Base: 1, Serial: 1},
+			Validity: cppki.Validity{NotBefore: nb, NotAfter: na}, GracePeriod: grace}
+		t.ID.Base, t.ID.Serial = scryptoV(base), scryptoV(serial)
+		cands := []time.Time{nb, na, nb.Add(grace), t0}
+		now := cands[r.Intn(len(cands))].Add(time.Duration(r.Intn(3)-1) * time.Second)
+		if !run.Want() {
+			run.Skip()
+			continue
+		}
+		a := pkigen.NewAbs(pkigen.NewGen(), t0)
+		ic, ig := t.Validity.Contains(now), t.InGracePeriod(now)
+		run.Tally(fmt.Sprintf("time:contains=%v,grace=%v", ic, ig))
+		term := vgen.App("PKIChain.CTime", a.TRC(t, 0, 0), fmt.Sprintf("(%d)%%Z", a.T(now)), vgen.B(ic), vgen.B(ig))
+		run.Add("time", term, term, true, map[string]any{"base": base, "serial": serial, "now": a.T(now)})
+	}
+
+	// 3. FetchingProvider.GetChains (wall clock; margins of at least one hour)
+	np := run.Count(120, 3000)
+	for i := 0; i < np; i++ {
+		providerCase(run, rng.Fork(uint64(900000+i)))
+	}
+	run.Finish()
+}
+
+// window offsets (hours) that keep at least 2 h distance from "now"
+var past = []int{-96, -72, -48, -24, -3}
+var future = []int{3, 24, 48, 72, 96}
+
+func providerCase(run *vgen.Run, r *vgen.Rand) {
+	// ---- draw the description (no execution yet)
+	nTRC := r.Range(1, 3)
+	rotateAt := r.Range(2, 4)      // serial at which the root changes (4 = never)
+	latestState := r.Intn(8)       // 0..4 valid, 5 expired, 6 future, 7 valid
+	graceState := r.Intn(4)        // 0,1 in grace; 2 grace over; 3 zero grace
+	dropPred := r.Chance(1, 8)     // predecessor missing from the DB
+	otherBase := r.Chance(1, 10)   // an unrelated base-2 TRC that is the latest by ordering
+	nChains := r.Range(0, 5)
+	type chainSpec struct {
+		rootIdx   int // 0 = old root, 1 = new root, 2 = foreign
+		state     int // 0 valid now, 1 expired, 2 future
+		ia        string
+		sameKey   bool
+		mut       int
+	}
+	drawChain := func() chainSpec {
+		cs := chainSpec{rootIdx: r.Intn(2), ia: iaAS, sameKey: r.Chance(2, 3)}
+		if r.Chance(1, 6) {
+			cs.rootIdx = 2
+		}
+		if r.Chance(1, 5) {
+			cs.state = r.Range(1, 2)
+		}
+		if r.Chance(1, 6) {
+			cs.ia = vgen.Pick(r, iaAS2, iaISD2)
+		}
+		if r.Chance(1, 8) {
+			cs.mut = r.Range(1, 3)
+		}
+		return cs
+	}
+	var dbChains, fetched []chainSpec
+	for j := 0; j < nChains; j++ {
+		dbChains = append(dbChains, drawChain())
+	}
+	fetchMode := r.Intn(4) // 0 error, else list
+	nf := r.Range(0, 3)
+	for j := 0; j < nf; j++ {
+		fetched = append(fetched, drawChain())
+	}
+	recOK := !r.Chance(1, 6)
+	allowInactive := r.Chance(1, 6)
+	qIA := iaAS
+	switch r.Intn(12) {
+	case 0:
+		qIA = iaAS2
+	case 1:
+		qIA = iaISD2
+	case 2:
+		qIA = "1-0"
+	case 3:
+		qIA = "0-ff00:0:111"
+	}
+	qSKID := []int{0, 0, 0, 1, 1, 2}[r.Intn(6)] // 0 none, 1 the shared key, 2 unknown key id
+	qVal := []int{0, 0, 0, 1, 1, 3, 2}[r.Intn(7)]  // 0 zero, 1 around now, 2 far future, 3 wide
+	if !run.Want() {
+		run.Skip()
+		return
+	}
+
+	// ---- build
+	g := pkigen.NewGen()
+	origin := time.Now().UTC().Truncate(time.Second)
+	a := pkigen.NewAbs(g, origin)
+	h := func(n int) time.Time { return origin.Add(time.Duration(n) * time.Hour) }
+	wNB, wNA := h(-24*400), h(24*400)
+	sens := g.MustIssue(g.Tmpl(pkigen.Sensitive, iaCore, "sens", wNB, wNA), g.NewKey(), nil, nil)
+	reg := g.MustIssue(g.Tmpl(pkigen.Regular, iaCore, "reg", wNB, wNA), g.NewKey(), nil, nil)
+	roots := []*pkigen.Cert{
+		g.MustIssue(g.Tmpl(pkigen.Root, iaCore, "rootA", wNB, wNA), g.NewKey(), nil, nil),
+		g.MustIssue(g.Tmpl(pkigen.Root, iaCore, "rootB", wNB, wNA), g.NewKey(), nil, nil),
+		g.MustIssue(g.Tmpl(pkigen.Root, iaCore, "foreign", wNB, wNA), g.NewKey(), nil, nil),
+	}
+	cas := make([]*pkigen.Cert, 3)
+	for j := range cas {
+		cas[j] = g.MustIssue(g.Tmpl(pkigen.CA, iaCore, fmt.Sprintf("ca%d", j), h(-24*300), h(24*300)),
+			g.NewKey(), roots[j], nil)
+	}
+	shared := g.NewKey()
+	mkChain := func(cs chainSpec) []*x509.Certificate {
+		nb, na := h(-24*10), h(24*10)
+		switch cs.state {
+		case 1:
+			nb, na = h(-24*10), h(vgen.Pick(r, past...))
+		case 2:
+			nb, na = h(vgen.Pick(r, future...)), h(24*10)
+		}
+		t := g.Tmpl(pkigen.AS, cs.ia, "as", nb, na)
+		key := shared
+		if !cs.sameKey {
+			key = g.NewKey()
+		}
+		switch cs.mut {
+		case 1:
+			t.ExtKeyUsage = []x509.ExtKeyUsage{x509.ExtKeyUsageServerAuth}
+		case 2:
+			t.BasicConstraintsValid, t.IsCA = true, true
+		}
+		c, err := g.Issue(t, key, cas[cs.rootIdx], nil, false)
+		if err != nil {
+			panic(err)
+		}
+		if cs.mut == 3 {
+			c = pkigen.Corrupt(c)
+		}
+		return []*x509.Certificate{c.X, cas[cs.rootIdx].X}
+	}
+	// TRC succession
+	store := newDB()
+	defer store.Close()
+	ctx := context.Background()
+	var trcTerms []string
+	insertTRC := func(t cppki.SignedTRC) {
+		if _, err := store.InsertTRC(ctx, t); err != nil {
+			panic(err)
+		}
+		trcTerms = append(trcTerms, a.TRC(&t.TRC, 0, 0))
+	}
+	for sidx := 1; sidx <= nTRC; sidx++ {
+		latest := sidx == nTRC
+		nb, na := h(-24*(30-sidx)), h(24*30)
+		grace := time.Duration(0)
+		if latest {
+			switch {
+			case latestState == 5:
+				nb, na = h(-24*20), h(vgen.Pick(r, past...))
+			case latestState == 6:
+				nb, na = h(vgen.Pick(r, future...)), h(24*30)
+			default:
+				switch graceState {
+				case 0:
+					nb = h(-3)
+					grace = 6 * time.Hour
+				case 1:
+					nb = h(-24)
+					grace = 48 * time.Hour
+				case 2:
+					nb = h(-24)
+					grace = 3 * time.Hour
+				}
+			}
+		}
+		root := roots[0]
+		if sidx >= rotateAt {
+			root = roots[1]
+		}
+		spec := pkigen.TRCSpec{ISD: 1, Base: 1, Serial: uint64(sidx), NB: nb, NA: na,
+			Certs: []*pkigen.Cert{sens, reg, root}, Signers: []*pkigen.Cert{sens, reg}}
+		if sidx > 1 {
+			spec.Grace = grace
+			spec.Votes = []int{0}
+		}
+		t, err := pkigen.MakeTRC(spec)
+		if err != nil {
+			panic(err)
+		}
+		if dropPred && sidx == nTRC-1 {
+			continue
+		}
+		insertTRC(t)
+	}
+	if otherBase {
+		t, err := pkigen.MakeTRC(pkigen.TRCSpec{ISD: 1, Base: 2, Serial: 2, NB: h(-24 * 5), NA: h(24 * 5),
+			Certs: []*pkigen.Cert{sens, reg, roots[2]}, Signers: []*pkigen.Cert{sens, reg}})
+		if err != nil {
+			panic(err)
+		}
+		insertTRC(t)
+	}
+	{ // an ISD 2 TRC that must never matter for ISD 1 queries
+		s2 := g.MustIssue(g.Tmpl(pkigen.Sensitive, "2-ff00:0:210", "sens2", wNB, wNA), g.NewKey(), nil, nil)
+		r2 := g.MustIssue(g.Tmpl(pkigen.Regular, "2-ff00:0:210", "reg2", wNB, wNA), g.NewKey(), nil, nil)
+		rt2 := g.MustIssue(g.Tmpl(pkigen.Root, "2-ff00:0:210", "root2", wNB, wNA), g.NewKey(), nil, nil)
+		t, err := pkigen.MakeTRC(pkigen.TRCSpec{ISD: 2, Base: 1, Serial: 1, NB: h(-24 * 5), NA: h(24 * 5),
+			Certs: []*pkigen.Cert{s2, r2, rt2}, Signers: []*pkigen.Cert{s2, r2}})
+		if err != nil {
+			panic(err)
+		}
+		insertTRC(t)
+	}
+	var dbTerms []string
+	for _, cs := range dbChains {
+		ch := mkChain(cs)
+		ins, err := store.InsertChain(ctx, ch)
+		if err != nil {
+			continue // AS certificate without usable ISD-AS cannot be stored
+		}
+		if ins {
+			dbTerms = append(dbTerms, chainTerm(a, ch))
+		}
+	}
+	f := &fetcher{fail: fetchMode == 0}
+	var fTerms []string
+	for _, cs := range fetched {
+		ch := mkChain(cs)
+		f.chains = append(f.chains, ch)
+		fTerms = append(fTerms, chainTerm(a, ch))
+	}
+	ia, err := addr.ParseIA(qIA)
+	if err != nil {
+		panic(err)
+	}
+	q := trust.ChainQuery{IA: ia}
+	qsk := uint64(0)
+	switch qSKID {
+	case 1:
+		q.SubjectKeyID = pkigen.SKID(shared.Pub)
+		qsk = a.H('i', q.SubjectKeyID)
+	case 2:
+		q.SubjectKeyID = []byte{1, 2, 3, 4}
+		qsk = a.H('i', q.SubjectKeyID)
+	}
+	switch qVal {
+	case 1:
+		q.Validity = cppki.Validity{NotBefore: h(-2), NotAfter: h(2)}
+	case 2:
+		q.Validity = cppki.Validity{NotBefore: h(24 * 9), NotAfter: h(24 * 12)}
+	case 3:
+		q.Validity = cppki.Validity{NotBefore: h(-24 * 9), NotAfter: h(24 * 9)}
+	}
+	qTerm := fmt.Sprintf("(PKIChain.mkq %d %d %d %s (%d)%%Z (%d)%%Z)", uint64(ia.ISD()), uint64(ia.AS()), qsk,
+		vgen.B(qVal != 0), a.T(q.Validity.NotBefore)*b2i(qVal != 0), a.T(q.Validity.NotAfter)*b2i(qVal != 0))
+	p := trust.FetchingProvider{DB: store, Recurser: recurser{recOK}, Fetcher: f, Router: router{}}
+	var opts []trust.Option
+	if allowInactive {
+		opts = append(opts, trust.AllowInactive())
+	}
+	before := time.Now()
+	var res [][]*x509.Certificate
+	var gerr error
+	if pn, msg := vgen.Recover(func() { res, gerr = p.GetChains(ctx, q, opts...) }); pn {
+		run.Violate(run.Add("provider", "(PKIChain.CCert (PKIChain.mkc 0 0 0 0 0 0 false false 0 0 false false false false [] [] false false 0%Z false PKIChain.IANone PKIChain.IANone 0%Z 0%Z) 0)",
+			"panic", true, msg), "panic: "+msg, nil)
+		return
+	}
+	after, err := store.Chains(ctx, trust.ChainQuery{})
+	if err != nil {
+		panic(err)
+	}
+	now := a.T(before)
+	implT := "None"
+	if gerr == nil {
+		implT = "(Some " + sortedChains(a, res) + ")"
+	}
+	fetchT := "None"
+	if !f.fail {
+		fetchT = "(Some " + vgen.List(fTerms) + ")"
+	}
+	dbT := fmt.Sprintf("(PKIChain.mkdb %s %s)", vgen.List(trcTerms), vgen.List(dbTerms))
+	term := vgen.App("PKIChain.CProvider", dbT, qTerm, vgen.B(allowInactive), vgen.B(recOK), fetchT,
+		fmt.Sprintf("(%d)%%Z", now), implT, sortedChains(a, after))
+	bucket := "err"
+	if gerr == nil {
+		bucket = fmt.Sprintf("ok:%d", len(res))
+		if len(res) > 2 {
+			bucket = "ok:3+"
+		}
+	}
+	run.Tally("provider:" + bucket)
+	run.Tally(fmt.Sprintf("provider:fetchcalls=%d", f.calls))
+	reached := !ia.IsWildcard() && !(allowInactive && len(res) > 0)
+	run.Add("provider", term, term, reached, map[string]any{
+		"nTRC": nTRC, "rotateAt": rotateAt, "latestState": latestState, "graceState": graceState,
+		"dropPred": dropPred, "otherBase": otherBase, "dbChains": fmt.Sprint(dbChains), "fetched": fmt.Sprint(fetched),
+		"fetchMode": fetchMode, "recOK": recOK, "allowInactive": allowInactive, "query": qIA, "qSKID": qSKID, "qVal": qVal,
+		"impl_err": gerr != nil, "impl_n": len(res)})
+}
+
+func scryptoV(v uint64) scrypto.Version { return scrypto.Version(v) }
+
+func b2i(b bool) int64 {
+	if b {
+		return 1
+	}
+	return 0
 }
